@@ -42,7 +42,7 @@ STUBS = ["threading.Lock -> SimLock (parks threads, raises on release of an unlo
 PROBES = ["lock-sweep-run", "preempt-inside-mul_add", "two-readers-inside", "writer-parked-while-readers-inside", "reader-parked-behind-writer",
           "preempt-inside-precompute", "preempt-inside-scale", "table-built-in-run", "clock-jump",
           "three-threads", "sweep-run", "instr-mode"]
-THOROUGH_ONLY_PROBES = ["instr-mode", "sweep-run", "lock-sweep-run"]
+THOROUGH_ONLY_PROBES = ["sweep-run", "lock-sweep-run"]
 ASSUMPTIONS = ["writer priority / who goes first is not part of the property and is never demanded",
                "releasing a mutex from another thread than the taker is legal (light switch) and not flagged"]
 
@@ -173,7 +173,7 @@ def gen(st, tier):
         curve = "toy" if i < 90 else w.choice(["secp112r1", "secp128r1"])
     else:
         curve = "nist256p"
-    return _gen_curve(w, s, curve, instr=(tier == "thorough" and curve == "toy" and w.random() < 0.3))
+    return _gen_curve(w, s, curve, instr=(curve == "toy" and w.random() < (0.3 if tier == "thorough" else 0.12)))
 
 
 def _gen_curve(w, s, curve, instr=False):
